@@ -1,37 +1,79 @@
 (* Properties/C08.v -- returned U is the first Symanzik polynomial of the graph.
    Statements only.
-   PROVED here (every scalar type, any E x L integer signature): the L matrix of the metadata
-   has L*L entries, entry (i,j) is the accumulation over the edges, in index order from zero, of
-   from_isize(s_ei*s_ej)*x_e, and it is symmetric bit for bit.  In Properties/C08 section
-   "determinant" (MathComp, Proofs/LinAlg.v): L = S^T X S, the returned u is det L for the
-   model's decomposition, and det(S^T X S) is invariant under unimodular changes of cycle basis
-   and edge reorientation.
+   PROVED: (every scalar type, any E x L integer signature) the L matrix of the metadata has L*L
+   entries, entry (i,j) is the accumulation over the edges, in index order from zero, of
+   from_isize(s_ei*s_ej)*x_e, and it is symmetric bit for bit; (any real closed field) it is
+   S^T X S, the returned u is its determinant (under the positive-pivot hypothesis of C15), and
+   det(S^T X S) is multiplied by det(Mc)^2 under a change of cycle basis Mc with edge
+   reorientations, hence unchanged for unimodular Mc.
    NOT PROVED (named gap): "(det S_I)^2 is 1 if E \ I is a spanning tree and 0 otherwise" for a
-   cycle basis S (Binet-Cauchy + totally unimodular), i.e. that det L is the spanning-tree sum;
+   cycle basis S (Binet-Cauchy + total unimodularity), i.e. that det L is the spanning-tree sum;
    validated on every run by spanning-tree enumeration in exact rationals. *)
 From Coq Require Import ZArith List.
-From MT Require Import Model.Scalar Model.Matrix Model.Sampling Proofs.LMatrix.
-Import ListNotations.
-Local Open Scope nat_scope.
+From mathcomp Require Import all_ssreflect all_algebra.
+From MT Require Import Model.Scalar Model.Matrix Model.Sampling
+  Proofs.LMatrix Proofs.CholSpec Proofs.LinAlg Proofs.Symanzik Proofs.SymBridge.
+Set Implicit Arguments.
+Unset Strict Implicit.
+Import GRing.Theory Num.Theory.
+Local Open Scope ring_scope.
 
 Theorem C08_entries : forall (C T : Type) (S : Scalar C T) (x : list T) (sig : list (list Z)) (L i j : nat),
-  i < L -> j < L ->
-  length (compute_l_matrix S x sig L) = L * L /\
+  (i < L)%coq_nat -> (j < L)%coq_nat ->
+  List.length (compute_l_matrix S x sig L) = (L * L)%coq_nat /\
   mget S L (compute_l_matrix S x sig L) i j =
-    fold_left (fun acc e => s_add S acc (s_mul S (s_of_Z S (sig_at sig e (Nat.min i j) * sig_at sig e (Nat.max i j)))
-                                                  (nth e x (s_zero S))))
-              (seq 0 (length sig)) (s_zero S) /\
+    List.fold_left (fun acc e => s_add S acc (s_mul S (s_of_Z S (sig_at sig e (Nat.min i j) * sig_at sig e (Nat.max i j)))
+                                                       (List.nth e x (s_zero S))))
+                   (List.seq 0 (List.length sig)) (s_zero S) /\
   mget S L (compute_l_matrix S x sig L) i j = mget S L (compute_l_matrix S x sig L) j i.
 Proof.
-  intros C T S x sig L i j Hi Hj.
-  exact (conj (l_matrix_length S x sig L) (conj (l_matrix_entry S x sig L i j Hi Hj) (l_matrix_symmetric S x sig L i j Hi Hj))).
+  move=> C T S x sig L i j Hi Hj.
+  exact: (conj (l_matrix_length S x sig L) (conj (l_matrix_entry S x sig L i j Hi Hj) (l_matrix_symmetric S x sig L i j Hi Hj))).
 Qed.
+
+(* over a real closed field: L = S^T X S *)
+Theorem C08_L_matrix : forall (F : rcfType) (nE nL : nat) (x : list F) (sig : list (list Z)),
+  List.length sig = nE ->
+  mx_of nL (compute_l_matrix (FS F) x sig nL) = Lm (Sm F nE nL sig) (xr nE x).
+Proof. move=> F nE nL x sig H; exact: l_matrix_bridge. Qed.
+
+(* the returned u is det(S^T X S) *)
+Theorem C08_u_is_det : forall (F : rcfType) (nE p : nat) (x : list F) (sig : list (list Z)),
+  List.length sig = nE ->
+  let lm := compute_l_matrix (FS F) x sig p.+1 in
+  (forall c : 'I_p.+1, 0 < pivot (FS F) p.+1 lm c) ->
+  decompose_for_tropical (FS F) p.+1 lm None = Ok (inr (decomp_fields (FS F) p.+1 lm)) /\
+  d_determinant (decomp_fields (FS F) p.+1 lm) = \det (Lm (Sm F nE p.+1 sig) (xr nE x)).
+Proof.
+  move=> F nE p x sig Hsig lm Hpiv.
+  have EL : mx_of p.+1 lm = Lm (Sm F nE p.+1 sig) (xr nE x) by exact: l_matrix_bridge.
+  have Msym : forall i j : 'I_p.+1, mx_of p.+1 lm i j = mx_of p.+1 lm j i.
+    by move=> i j; rewrite EL -{1}(Lm_sym (Sm F nE p.+1 sig) (xr nE x)) mxE.
+  split; first exact: decompose_ok_of_pivots.
+  by have [_ _ _ _ ->] := decomp_fields_correct Msym Hpiv; rewrite EL.
+Qed.
+
+(* independence of the cycle basis: S -> Dg S Mc with Dg = diag(+-1), det Mc = +-1 *)
+Theorem C08_basis_independence : forall (F : rcfType) (nE nL : nat) (S : 'M[F]_(nE, nL)) (x : 'rV[F]_nE)
+    (sg : 'rV[F]_nE) (Mc : 'M[F]_nL),
+  (forall e, sg 0 e * sg 0 e = 1) -> (\det Mc = 1 \/ \det Mc = -1) ->
+  \det (Lm (diag_mx sg *m S *m Mc) x) = \det (Lm S x).
+Proof.
+  move=> F nE nL S x sg Mc Hsg Hdet.
+  rewrite (@det_routing F nE nL S x sg Hsg Mc).
+  by case: Hdet => ->; rewrite ?expr1n ?sqrrN ?expr1n mul1r.
+Qed.
+
 Print Assumptions C08_entries.
+Print Assumptions C08_L_matrix.
+Print Assumptions C08_u_is_det.
+Print Assumptions C08_basis_independence.
 
 (* non-vacuity: two loops sharing one edge, at binary64 *)
 From Coq Require Import Floats.
 From MT Require Import Model.F64.
 Example C08_example :
-  map bits_of (compute_l_matrix (F64 []) [1; 2; 4]%float [[1; 0]; [1; -1]; [0; 1]]%Z 2) =
-  map bits_of [3; -2; -2; 6]%float.
-Proof. vm_compute. reflexivity. Qed.
+  List.map bits_of (compute_l_matrix (F64 nil) (1 :: 2 :: 4 :: nil)%float
+                      ((Zpos xH :: Z0 :: nil) :: (Zpos xH :: Zneg xH :: nil) :: (Z0 :: Zpos xH :: nil) :: nil) 2) =
+  List.map bits_of (3 :: -2 :: -2 :: 6 :: nil)%float.
+Proof. by vm_compute. Qed.
